@@ -186,8 +186,8 @@ def run(case, rec):
             ints = np.round(data * (64 if case["image"]["type"] == "levels" else 1024)).astype(np.int64)
             info = np.iinfo(dtype)
             span = int(ints.max() - ints.min())
-            if span > int(info.max) - int(info.min):
-                ints = ints // (span // 200 + 1)  # 8-bit types: coarser grey values
+            if span > int(info.max) - int(info.min) - 8:
+                ints = ints // (span // 200 + 1)  # 8-bit types: coarser grey values (room for the shifts below)
             top = min(int(info.max), 2 ** 20)
             ints = ints - int(ints.max()) + top - int(case["thr_seed"] % 7)  # brightest pixel close to the type's maximum
             if int(ints.min()) < int(info.min):
